@@ -18,7 +18,7 @@ M={
  "N11-doPostCtx-rewrites-204-to-200": (F, "\tres, err := ipfs.client.Do(req)\n\tif err != nil {\n\t\tlogger.Error(\"error posting to IPFS:\", err)\n\t}\n", "\tres, err := ipfs.client.Do(req)\n\tif err != nil {\n\t\tlogger.Error(\"error posting to IPFS:\", err)\n\t}\n\tif res != nil && res.StatusCode == http.StatusNoContent {\n\t\tres.StatusCode = http.StatusOK\n\t}\n"),
  "N12-BlockPut-ignores-the-response": (F, "\tvar res ipfsBlockPutResp\n\terr = json.Unmarshal(body, &res)\n\tif err != nil {\n\t\treturn err\n\t}\n\n\tlogger.Debug(\"block/put response CID\", res.Key)\n\trespCid, err := cid.Decode(res.Key)\n\tif err != nil {\n\t\tlogger.Error(\"cannot parse CID from BlockPut response\")\n\t\treturn err\n\t}\n", "\tvar res ipfsBlockPutResp\n\t_ = json.Unmarshal(body, &res)\n\trespCid, _ := cid.Decode(res.Key)\n"),
  "N13-Resolve-falls-back-to-the-path-on-a-decode-error": (F, "\tvar resp ipfsResolveResp\n\terr = json.Unmarshal(res, &resp)\n\tif err != nil {\n\t\tlogger.Error(\"could not unmarshal response: \" + err.Error())\n\t\treturn cid.Undef, err\n\t}\n", "\tvar resp ipfsResolveResp\n\terr = json.Unmarshal(res, &resp)\n\tif err != nil || resp.Path == \"\" {\n\t\tseg := strings.Split(strings.TrimRight(path, \"/\"), \"/\")\n\t\treturn cid.Decode(seg[len(seg)-1])\n\t}\n"),
- "N14-RepoGC-without-checkResponse": (F, "\t_, err = checkResponse(\"repo/gc\", res)\n\tif err != nil {\n\t\treturn nil, err\n\t}\n\n\tdec := json.NewDecoder(res.Body)\n\trepoGC", "\tdec := json.NewDecoder(res.Body)\n\trepoGC"),
+ "N14-RepoGC-without-checkResponse": (F, "\t_, err = checkResponse(\"repo/gc\", res)\n\tif err != nil {\n\t\tlogger.Error(err)\n\t\treturn nil, err\n\t}\n\n\tdec := json.NewDecoder(res.Body)\n\trepoGC", "\tdec := json.NewDecoder(res.Body)\n\trepoGC"),
  "N15-SwarmPeers-skips-undecodable-peers": (F, "\t\tpID, err := peer.Decode(p.Peer)\n\t\tif err != nil {\n\t\t\tlogger.Error(err)\n\t\t\treturn swarm, err\n\t\t}", "\t\tpID, err := peer.Decode(p.Peer)\n\t\tif err != nil {\n\t\t\tcontinue\n\t\t}"),
 }
 wt=sys.argv[1]
